@@ -589,6 +589,11 @@ func (e *Env) opSendRaw(op Op, opIdx int) {
 		p.DstChain = p.SrcChain
 	case "seq0":
 		p.Sequence = 0
+	case "junkcall":
+		// extension: accepted by SendPacket; on the destination the packet contract cannot decode the call
+		// data, onRecvPacket reverts and msg_server writes the "receive packet callback failed" acknowledgement
+		p.TransferData = []byte{}
+		p.CallData = []byte(fmt.Sprintf("raw-junk-call-data-%d", opIdx))
 	}
 	e.orc.AddPack(&p)
 	act := &ActSend{T: "send", Sends: []SendJ{{packetJ(&p), true}}}
@@ -859,6 +864,10 @@ func (e *Env) opRecvTss(op Op, opIdx int) {
 		bz, err := td.ABIPack()
 		must(err)
 		p.TransferData = bz
+	} else if op.Variant == "junkcall" {
+		// no transfer, call data that is not an ABI-encoded CallData tuple
+		p.TransferData = []byte{}
+		p.CallData = []byte(fmt.Sprintf("junk-call-data-%d", opIdx))
 	} else {
 		p.TransferData = []byte(fmt.Sprintf("junk-transfer-data-%d", opIdx))
 	}
